@@ -143,11 +143,7 @@ type c23LossTrack struct {
 func c23Lossy(run *kit.Run, base, n int) { //nolint:gocognit,cyclop,gocyclo,maintidx
 	const total = 400
 	run.Set("lossy_packets_per_track", total)
-	run.Parallel(n, 4, func(k int) {
-		i := base + k
-		if !run.Want(i) {
-			return
-		}
+	c23Parallel(run, base, n, 4, func(i, _ int) { // (run.Parallel would test Want(k), not Want(base+k): --replay of a lossy case ran nothing)
 		r := run.CaseRand(i)
 
 		// ---- the configuration, drawn before anything runs
